@@ -76,8 +76,11 @@ Definition watson_log_pdf (mode : nat -> cx (T:=T)) (kappa lognorm : T) (z : nat
 Definition cacg_qfloor (q : nat -> T) (n : nat) : T :=
   omax P (q n) (omul P (oadd P (onat P 9) (o1 P)) tiny).            (* 10 * tiny *)
 Definition cacg_cov_raw (z : nat -> nat -> cx (T:=T)) (s q : nat -> T) (d e : nat) : cx :=
-  cscale P (omul P (onat P D) (oinv P (omax P (bsum P N s) tiny)))
-         (scatter z (fun n => odiv P (s n) (cacg_qfloor q n)) d e).
+  (* D * einsum(...) first, THEN the division by max(sum s, tiny): for a class without mass 0 / tiny = 0
+     (D * (1 / tiny) would overflow to inf and inf * 0 = NaN) *)
+  let v := cscale P (onat P D) (scatter z (fun n => odiv P (s n) (cacg_qfloor q n)) d e) in
+  let den := omax P (bsum P N s) tiny in
+  (odiv P (fst v) den, odiv P (snd v) den).
 Definition hermitize (A : nat -> nat -> cx (T:=T)) (d e : nat) : cx :=
   cscale P (oinv P (oadd P (o1 P) (o1 P))) (cadd P (A d e) (cconj P (A e d))).
 Definition cacg_cov (herm : bool) (z : nat -> nat -> cx (T:=T)) (s q : nat -> T) : nat -> nat -> cx :=
